@@ -40,6 +40,10 @@ USER_MAPS = [
     [["xmlns", "urn:a"]],
     [["a b", "urn:a"]],
     [["1p", "urn:a"]],
+    [["\u00aa", "urn:a"]],                       # a letter for str.isalpha, not an XML NameStartChar
+    [["\u00e9", "urn:a"]],                       # é: a NCName
+    [[None, XMLNS]],
+    [["p", "http://www.w3.org/2000/xmlns/"]],
     [["p", XMLNS]],
     [["xml", XMLNS]],
     [[None, "urn:a&b"]],
@@ -270,7 +274,7 @@ def _writer_cases(rng, tier, indent_ok=True):
             yield {"events": ev, "ns_map": m, "cfg": {}}
     yield from exhaustive(3 if tier == "quick" else 4, EXH_MAPS[:2] if tier == "quick" else EXH_MAPS)
     yield from balanced_exhaustive(rng, 400 if tier == "quick" else 6000)
-    n = 2500 if tier == "quick" else 30000
+    n = 2500 if tier == "quick" else 50000
     for _ in range(n):
         r = rng.random()
         hostile = r < 0.18
